@@ -32,7 +32,7 @@ theorem dget_ddel_ne {β} (k k' : Str) (h : List (Str × β)) (hne : k' ≠ k) :
   | cons p r ih =>
     obtain ⟨k2, v2⟩ := p
     by_cases hk : k2 = k'
-    · subst hk; simp [ddel, dget, hne]
+    · subst hk; simp [ddel, dget, hne, ih]
     · by_cases hk2 : k2 = k
       · subst hk2; simp [ddel, dget, hk]
       · simp [ddel, dget, hk, hk2, ih]
@@ -75,7 +75,7 @@ theorem dget_ddel_same {β} (k : Str) (h : List (Str × β)) (hnd : (h.map (·.1
           simp only [List.map_cons, List.mem_cons, not_or] at hl
           have : k3 ≠ k2 := fun e => hl.1 e.symm
           simp [dget, this, ihq hl.2]
-      exact this r hnd.1
+      exact ih hnd.2
     · simp [ddel, dget, hk, ih hnd.2]
 
 /-! ### infix -/
